@@ -143,7 +143,7 @@ fn param_variants(kind: Kind, n: usize) -> Params {
 }
 
 fn run_enum(ctx: &Ctx) -> Report {
-    let depth = ctx.pick(6, 8);
+    let depth = ctx.pick(6, 9);
     let mut jobs = Vec::new();
     for kind in ALL_KINDS {
         let nmax = if kind.n_periods() == 0 { 1 } else { 4 };
@@ -204,7 +204,7 @@ fn run_enum(ctx: &Ctx) -> Report {
 }
 
 fn run_random(ctx: &Ctx) -> Report {
-    let njobs = ctx.pick(13200, 264000);
+    let njobs = ctx.pick(13200, 1056000);
     let seed = ctx.seed;
     let maxops = ctx.pick(3000usize, 8000usize);
     let jobs: Vec<usize> = (0..njobs).collect();
